@@ -54,7 +54,7 @@ class Schedule:
         if ov is not None:
             return ov
         pol = self.policy
-        if pol == "lo" or pol == "hi" or pol == "rnd" or pol == "mid":
+        if pol in ("lo", "hi", "rnd", "mid", "lo1", "hi1"):
             return pol
         if pol == "alt":
             return "lo" if i % 2 == 0 else "hi"
